@@ -34,6 +34,12 @@ def coef_engine(method, tier, kind="order"):
     name = ("coef_" if kind == "order" else "coef_dense_") + method
     return cached(name, key, lambda: orderconds.run(method, REPO, kind=kind), use_cache=(tier != "thorough"))
 
+def coef_radau_engine(tier):
+    from coef import radau
+    src = os.path.join(REPO, radau.FILE)
+    key = _sha(src, os.path.join(ROOT, "coef", "radau.py"), os.path.join(ROOT, "coef", "symstep.py"), os.path.join(ROOT, "vx", "gen.py"), os.path.join(ROOT, "vx", "core.py"))
+    return cached("coef_radau", key, lambda: radau.run(REPO), use_cache=(tier != "thorough"))
+
 def run_for(prop, tier, seed):
     jobs = []
     reg = json.load(open(os.path.join(ROOT, "registry.json")))
@@ -48,6 +54,8 @@ def run_for(prop, tier, seed):
                 return coef_engine(e["method"], tier)
             if e["kind"] == "coef_dense":
                 return coef_engine(e["method"], tier, kind="dense")
+            if e["kind"] == "coef_radau":
+                return coef_radau_engine(tier)
             if e["kind"] == "kani_lemmas":
                 from . import kani_engine
                 return kani_engine.lemma_base(tier)
